@@ -23,7 +23,7 @@ ASSUMPTIONS = ['residual tolerance 1e-5*size (1e-3 with an arc) as stated by the
                'exceptions tolerated only for two arcs that are not both circular and unrotated',
                'curve sizes between 1 and 1e3']
 
-FAMILIES = ['cross', 'touch', 'miss_1e-3', 'miss_1e-7', 'far', 'endpoint', 'node']
+FAMILIES = ['cross', 'touch', 'miss_1e-3', 'miss_1e-7', 'far', 'endpoint', 'node', 'cross_small_B']
 
 
 def kind(s):
@@ -47,6 +47,9 @@ def configure(aname, bname, fam, tA, tB, alpha, scale):
     A = AB.make(aname, scale)
     if fam == 'cross':
         B = isect.place(bname, tB, A, tA, alpha, scale)
+    elif fam == 'cross_small_B':
+        # the second curve 250 times smaller than the first (a detail crossing a large stroke)
+        B = isect.place(bname, tB, A, tA, alpha, scale * 0.004)
     elif fam == 'touch':
         B = isect.place(bname, tB, A, tA, 0.0, scale)
     elif fam.startswith('miss'):
@@ -97,6 +100,63 @@ def judge_pairs(A, B, pairs, case, acc, sig):
                           expected='<= %g' % tol)
             ok = False
     return ok
+
+
+SMALL_B_SHAPES = ['L_diagonal', 'Q_generic', 'C_arch', 'C_sshape', 'C_monotone']
+PARALLEL_ANGLES = [0.0, 1e-16, 1e-14, 1e-12, 1e-11, 1e-10, 3e-10, 1e-9, 1e-8, 1e-7, 1e-6, 1e-4]
+
+
+def check_nearly_parallel(acc, only=None):
+    """two lines at an angle of 0 .. 1e-4 rad, one offset sideways by 1% of its length, both orders, several
+    headings and sizes: whatever is reported must be a real common point (with exactly parallel lines there
+    is none; a hair off parallel the true crossing lies far outside both)"""
+    for size in (1.0, 1e-3, 1e4):
+        for heading in (0.0, 0.3, 1.5707963267948966, 2.5):
+            for ang in PARALLEL_ANGLES:
+                for sgn in (1, -1):
+                    d1 = cmath.exp(1j * heading)
+                    d2 = cmath.exp(1j * (heading + sgn * ang))
+                    A = Line(0.2 * size + 0.1j * size, 0.2 * size + 0.1j * size + size * d1)
+                    off = 0.01 * size * 1j * d1
+                    B = Line(A.start + off - 0.1 * size * d2, A.start + off + 1.3 * size * d2)
+                    case = {'what': 'nearly_parallel', 'size': size, 'heading': heading, 'angle': sgn * ang}
+                    if only and {k: v for k, v in only.items() if k != 'order'} != case:
+                        continue
+                    for order, X, Y in (('AB', A, B), ('BA', B, A)):
+                        r = outcome(lambda: X.intersect(Y))
+                        acc.case(dict(case, order=order), cls='nearly_parallel/%s' % ('nonempty' if r[0] == 'ok' and r[1] else 'empty'))
+                        sig = {'pair': 'LL', 'family': 'nearly_parallel', 'exactly_parallel': ang == 0.0}
+                        if r[0] != 'ok':
+                            acc.violation('intersect_raises', dict(sig, exc=r[1]), dict(case, order=order), observed=r)
+                            continue
+                        judge_pairs(X, Y, r[1], dict(case, order=order), acc, sig)
+
+
+def check_nearly_coincident(acc, only=None):
+    """a line and a piece of (almost) the same line: the second line's end points are points of the first,
+    rounded to floats, so the two directions differ by rounding noise only (1e-17 .. 1e-13 rad) - the 2x2
+    system is singular up to noise and its 'solution' is noise too; nothing may be reported that is not a
+    common point"""
+    k = 0
+    for i in range(12):
+        a0 = complex(-4.3885 + 0.731 * i, 1.2078 - 0.377 * i)
+        a1 = a0 + complex(0.179 + 0.0613 * i, 0.5489 - 0.0291 * i * i)
+        A = Line(a0, a1)
+        for (u0, u1) in ((0.1, 0.8), (0.3, 1.5), (-0.2, 0.6), (0.25, 0.75)):
+            B = Line(a0 + u0 * (a1 - a0), a0 + u1 * (a1 - a0))
+            if B == A or B.start == B.end:
+                continue
+            case = {'what': 'nearly_coincident', 'i': i, 'u': [u0, u1]}
+            if only and {k_: v for k_, v in only.items() if k_ != 'order'} != case:
+                continue
+            for order, X, Y in (('AB', A, B), ('BA', B, A)):
+                r = outcome(lambda: X.intersect(Y))
+                acc.case(dict(case, order=order), cls='nearly_coincident/%s' % ('nonempty' if r[0] == 'ok' and r[1] else 'empty'))
+                sig = {'pair': 'LL', 'family': 'nearly_coincident'}
+                if r[0] != 'ok':
+                    acc.violation('intersect_raises', dict(sig, exc=r[1]), dict(case, order=order), observed=r)
+                    continue
+                judge_pairs(X, Y, r[1], dict(case, order=order), acc, sig)
 
 
 LEG_OFFSETS = [0.0, 0.5, -0.5, 2.0, -2.0, 10.0]
@@ -253,10 +313,11 @@ def shards(tier, seed):
     out = [{'what': 'segments', 'A': a, 'B': b} for a in isect.SHAPES for b in isect.SHAPES]
     out += [{'what': 'paths', 'p1': a, 'p2': b} for a in PATHS for b in PATHS]
     out += [{'what': 'leg_parallel', 'B': b} for b in list(AB.LINES) + list(AB.QUADS) + list(AB.CUBICS)]
+    out.append({'what': 'nearly_parallel'})
     # long paths (grids of crossings; sizes bracket 256 and 4096 segment pairs): reported T coherent with (segment, t)
     out += [{'what': 'grid', 'size': list(sz), 'kinds': k, 'long': lg}
             for sz in (isect.GRID_SIZES_QUICK if tier == 'quick' else isect.GRID_SIZES_THOROUGH)
-            for k in (('L',) if sz[0] * sz[1] > 1100 else ('L', 'LQC')) for lg in (False, True, 'over_zigzag')]
+            for k in (('L',) if sz[0] * sz[1] > 1100 else ('L', 'LQC')) for lg in (False, True, 'over_zigzag', 'far_fine')]
     return out
 
 
@@ -266,6 +327,10 @@ def run_shard(desc, tier, seed):
     if desc['what'] == 'leg_parallel':
         check_leg_parallel(desc['B'], acc)
         return acc
+    if desc['what'] == 'nearly_parallel':
+        check_nearly_parallel(acc)
+        check_nearly_coincident(acc)
+        return acc
     if desc['what'] == 'grid':
         isect.check_grid(desc['size'][0], desc['size'][1], desc['kinds'], desc['long'], acc, ('coherent',), 'C11')
         return acc
@@ -274,6 +339,9 @@ def run_shard(desc, tier, seed):
             for fam in FAMILIES:
                 for tA, tB, al in itertools.product(tp['tA'], tp['tB'], tp['alpha']):
                     if fam in ('touch', 'miss_1e-3', 'miss_1e-7') and al != tp['alpha'][0]:
+                        continue
+                    if fam == 'cross_small_B' and ((tA, tB) != (tp['tA'][0], tp['tB'][0]) or sc != 1.0 or
+                                                   desc['A'] not in SMALL_B_SHAPES or desc['B'] not in SMALL_B_SHAPES):
                         continue
                     if sc != 1.0 and subdivision_pair(desc['A'], desc['B']) and fam not in ('cross', 'endpoint', 'node'):
                         # the subdivision solver's tolerances are absolute: at scale 100 every miss / far
@@ -312,7 +380,13 @@ def space(tier, seed):
 
 def replay(case):
     acc = core.ReplayAcc()
-    if case['what'] == 'leg_parallel':
+    if case['what'] == 'nearly_coincident':
+        check_nearly_coincident(acc, only=case)
+        acc.vlist = [v for v in acc.vlist if v['case'].get('order') == case.get('order')]
+    elif case['what'] == 'nearly_parallel':
+        check_nearly_parallel(acc, only=case)
+        acc.vlist = [v for v in acc.vlist if v['case'].get('order') == case.get('order')]
+    elif case['what'] == 'leg_parallel':
         check_leg_parallel(case['B'], acc, only=case)
         acc.vlist = [v for v in acc.vlist if v['case'].get('order') == case.get('order')]
     elif case['what'] == 'grid':
